@@ -29,3 +29,7 @@ def run(rep: Report, repo: Repo, tier: str) -> None:
         atn_rules.rule_doc_tokens(rep, repo, "C01-R7")
     with rep.isolated():
         protocol.rule_rejections(rep, repo, "C01-R8")
+    from . import fsrules as _fsr
+    with rep.isolated():
+        _fsr.rule_always_regenerates(rep, repo, "C01-R9")
+
